@@ -453,8 +453,8 @@ def rule_codec_symmetry(ck, facts):
                 cfg = {"int": "varint", "endian": "little", "limit": "none"}  # DefaultOptions::new()
                 cfg.update({k: v for k, v in o.items() if k != "trailing"})
             sides[side].append((f, t, cfg, free))
-    ck.floor(R, "encoder_sites", len(sides["encode"]), 2)
-    ck.floor(R, "decoder_sites", len(sides["decode"]), 3)
+    ck.floor(R, "encoder_sites", len(sides["encode"]), 1)
+    ck.floor(R, "decoder_sites", len(sides["decode"]), 1)
     ref = None
     for f, t, cfg, free in sides["encode"]:
         ref = ref or cfg
